@@ -960,7 +960,15 @@ def detection(ctx, rep):
             ls, calls = _search_summary(None, 'lang')
             I = mk_interp(P, extra={'lang_search': ls}); I.budget = 20000; I.max_steps = 4000000
             st = State()
-            outs = I.run(f, setup(I, st, lang_out=with_lang_out), st)
+            try:
+                outs = I.run(f, setup(I, st, lang_out=with_lang_out), st)
+            except Unmodelled:
+                nd_ = [x for x in I.null_derefs if x[3]]
+                if not nd_ or with_lang_out: raise
+                # a partition described by exact (affine) constraints on the per-language outcomes dereferences NULL: a feasible path
+                rep.fail('a NULL lang_out (documented as optional) is never written through', nd_[0][0], 'polyseed_phrase_decode with lang_out = NULL: %s through NULL' % nd_[0][1],
+                         detail={'at': nd_[0][0], 'access': nd_[0][1]}, key='DETECT|null-lang_out')
+                continue
             rep.info['detection_partitions'] = len(outs)
             tried = sorted(set(c[0] for c in calls))
             rep.check(tried == sorted(langs), 'every registered language is searched (%d)' % len(langs), w, f.name, detail={'searched': tried, 'registered': sorted(langs)},
